@@ -126,23 +126,44 @@ RandomAccessIterator3 parallel_multiway_merge_base(
             total_size, comp, chunks.data(), num_threads);
     }
 
+    // output offset of each thread (= number of elements in the chunks of all
+    // earlier threads) and number of elements it has to merge. When size is
+    // smaller than the total size, the chunks together hold more than size
+    // elements (the sampling splitter always runs to the end of the inputs):
+    // the thread whose chunks cross the requested size merges only the part
+    // below it, and all later threads merge nothing.
+    std::vector<DiffType> target_position(num_threads), local_size(num_threads);
+    size_t last_thread = 0;
+
+    for (size_t iam = 0; iam < num_threads; ++iam)
+    {
+        DiffType position = 0, chunk_size = 0;
+
+        for (size_t s = 0; s < num_seqs; ++s)
+        {
+            position += chunks[iam][s].first - seqs_ne[s].first;
+            chunk_size += chunks[iam][s].second - chunks[iam][s].first;
+        }
+
+        target_position[iam] = position;
+        local_size[iam] = std::max<DiffType>(
+            0, std::min(chunk_size, static_cast<DiffType>(size) - position));
+
+        if (position <= static_cast<DiffType>(size))
+            last_thread = iam;
+    }
+
 #if defined(_OPENMP)
 #pragma omp parallel num_threads(num_threads)
     {
         size_t iam = omp_get_thread_num();
 
-        DiffType target_position = 0, local_size = 0;
-
-        for (size_t s = 0; s < num_seqs; ++s)
+        if (local_size[iam] > 0)
         {
-            target_position += chunks[iam][s].first - seqs_ne[s].first;
-            local_size += chunks[iam][s].second - chunks[iam][s].first;
+            multiway_merge_base<Stable, false>(
+                chunks[iam].begin(), chunks[iam].end(),
+                target + target_position[iam], local_size[iam], comp, mwma);
         }
-
-        multiway_merge_base<Stable, false>(
-            chunks[iam].begin(), chunks[iam].end(), target + target_position,
-            std::min(local_size, static_cast<DiffType>(size) - target_position),
-            comp, mwma);
     }
 #else
     std::vector<std::thread> threads(num_threads);
@@ -150,20 +171,13 @@ RandomAccessIterator3 parallel_multiway_merge_base(
     for (size_t iam = 0; iam < num_threads; ++iam)
     {
         threads[iam] = std::thread([&, iam]() {
-            DiffType target_position = 0, local_size = 0;
-
-            for (size_t s = 0; s < num_seqs; ++s)
+            if (local_size[iam] > 0)
             {
-                target_position += chunks[iam][s].first - seqs_ne[s].first;
-                local_size += chunks[iam][s].second - chunks[iam][s].first;
+                multiway_merge_base<Stable, false>(
+                    chunks[iam].begin(), chunks[iam].end(),
+                    target + target_position[iam], local_size[iam], comp,
+                    mwma);
             }
-
-            multiway_merge_base<Stable, false>(
-                chunks[iam].begin(), chunks[iam].end(),
-                target + target_position,
-                std::min(local_size,
-                         static_cast<DiffType>(size) - target_position),
-                comp, mwma);
         });
     }
 
@@ -171,12 +185,14 @@ RandomAccessIterator3 parallel_multiway_merge_base(
         threads[i].join();
 #endif
 
-    // update ends of sequences
+    // update begins of sequences: the chunks of all threads before last_thread
+    // were consumed completely, the begins of its own chunks were advanced by
+    // its merge, and the chunks of later threads were not touched.
     size_t count_seqs = 0;
     for (RandomAccessIteratorIterator ii = seqs_begin; ii != seqs_end; ++ii)
     {
         if (ii->first != ii->second)
-            ii->first = chunks[num_threads - 1][count_seqs++].second;
+            ii->first = chunks[last_thread][count_seqs++].first;
     }
 
     return target + size;
